@@ -408,35 +408,36 @@ impl Loop3D {
             return Err("Loops need at least 3 vertices".to_string());
         }
 
-        // Check the last vertex for collinearity
-        let n = self.vertices.len();
-        let a = self.vertices[n - 2];
-        let b = self.vertices[n - 1];
-        let c = self.vertices[0];
+        // Work on a copy, so that a refused close() leaves the loop as it was
+        let mut closed = self.clone();
 
-        if a.is_collinear(b, c)? {
-            // collinear. Remove the last vertex
-            self.vertices.pop();
+        // Drop the redundant (collinear or repeated) vertices at the seam... as many as there are
+        loop {
+            let n = closed.vertices.len();
+            if n < 3 {
+                return Err("Loops need at least 3 vertices".to_string());
+            }
+            // Check the last vertex for collinearity
+            if closed.vertices[n - 2].is_collinear(closed.vertices[n - 1], closed.vertices[0])? {
+                closed.vertices.pop();
+                continue;
+            }
+            // Check the first vertex for collinearity
+            if closed.vertices[n - 1].is_collinear(closed.vertices[0], closed.vertices[1])? {
+                closed.vertices.remove(0);
+                continue;
+            }
+            break;
         }
 
         // Check if closing would intercept
-        self.valid_to_add(self.vertices[0])?;
-
-        // Check the first vertex for collinearity
-        let n = self.vertices.len();
-        let a = self.vertices[n - 1];
-        let b = self.vertices[0];
-        let c = self.vertices[1];
-
-        if a.is_collinear(b, c)? {
-            // collinear. Remove the last vertex
-            self.vertices.remove(0);
-        }
+        closed.valid_to_add(closed.vertices[0])?;
 
         // Close
-        self.closed = true;
-        self.set_area()?;
-        self.set_perimeter()?;
+        closed.closed = true;
+        closed.set_area()?;
+        closed.set_perimeter()?;
+        *self = closed;
         Ok(())
     }
 
